@@ -71,18 +71,30 @@ def deaOnce (h : List E) (grains : List String) (stopOk : Bool) : List String :=
       else if activeAtStop && stopOk && n == 0 then some s!"dea:{gname}#{i}=0"
       else none
 
-/-- after Stop returned no user handler runs: none is still inside (`in:`), none starts (`new:`) -/
+/-- a grain instance whose OnActivate only began after Stop was called (a send racing the shutdown) -/
+def lateInstance (h : List E) (e : E) : Bool :=
+  let (pre, _, _) := split3 h
+  e.inst != 0 && !(pre.any fun x => x.who == e.who && x.inst == e.inst && x.kind == "actB")
+
+/-- after Stop returned no user handler runs: none is still inside (`in:`), none starts (`new:`), no
+    hook runs late (`late:`).  Handlers of a grain instance that was activated after Stop had been
+    called are reported as `leak:` (the instance escaped poisonAllGrains). -/
 def quietAfter (h : List E) : List String :=
   let (pre, mid, post) := split3 h
   let before := pre ++ mid
-  let whos := (before.map (·.who)).eraseDups
-  let inside := whos.filterMap fun w =>
-    let b := countK before w "recvB" + countK before w "rcvB"
-    let e := countK before w "recvE" + countK before w "rcvE"
-    if b > e then some s!"in:{w}" else none
-  let started := (post.filter fun e => e.kind == "recvB" || e.kind == "rcvB").map fun e => s!"new:{e.who}"
-  let hooks := (post.filter fun e => e.kind == "postB" || e.kind == "deaB").map fun e => s!"late:{e.who}"
-  if h.any isStopE then inside ++ started.eraseDups ++ hooks.eraseDups else []
+  let keys := (before.map fun e => (e.who, e.inst)).eraseDups
+  let inside := keys.filterMap fun (w, i) =>
+    let evs := before.filter fun e => e.who == w && e.inst == i
+    let b := countK evs w "recvB" + countK evs w "rcvB"
+    let e := countK evs w "recvE" + countK evs w "rcvE"
+    if b > e then
+      some (if lateInstance h { who := w, kind := "", g := 0, inst := i } then s!"leak:{w}" else s!"in:{w}")
+    else none
+  let started := (post.filter fun e => e.kind == "recvB" || e.kind == "rcvB").map fun e =>
+    if lateInstance h e then s!"leak:{e.who}" else s!"new:{e.who}"
+  let hooks := (post.filter fun e => e.kind == "postB" || e.kind == "deaB").map fun e =>
+    if lateInstance h e then s!"leak:{e.who}" else s!"late:{e.who}"
+  if h.any isStopE then (inside ++ started ++ hooks).eraseDups else []
 
 /-- a grain instance never starts an OnReceive after its OnDeactivate began (inherits C31 clause 3) -/
 def noReceiveAfterDeactivate (h : List E) (grains : List String) : List String :=
